@@ -73,6 +73,9 @@ KINDS = {
                                     selector_fmt='a[title="Read   more {i}"]::after'),
     "sel_escaped": lambda: Item("sel_escaped", [("color", "#999", False)], selector_fmt=".menu\\  .item{i} > li"),
     "sel_comment_nonascii": lambda: Item("sel_comment_nonascii", [("color", "#8a8a8a", False)], selector_fmt=".\u00fc{i} /* c */ > p:not(.x)::before"),
+    "bg_first_important": lambda: Item("bg_first_important", [("background-color", "#eee", True), ("color", "#888", False)]),
+    "bg_black_first_only": lambda: Item("bg_black_first_only", [("background-color", "#000000", False), ("color", "#bbbbbb", False)]),
+    "bg_dark_first": lambda: Item("bg_dark_first", [("background-color", "#222", False), ("margin", "0", False), ("color", "#666", False)]),
     "important": lambda: Item("important", [("color", "#777", True)]),
     "repeated": lambda: Item("repeated", [("color", "#000", False), ("margin", "0", False), ("color", "#777", False)]),
     "repeated_after_bg": lambda: Item("repeated_after_bg", [("color", "#333", False), ("background-color", "#fff", False), ("color", "#999", False)]),
